@@ -1,4 +1,7 @@
-use std::io::{self, Write};
+use std::{
+    io::{self, Write},
+    iter,
+};
 
 use super::{header, state_renormalize, state_step, write_header, write_states};
 use crate::{
@@ -124,7 +127,16 @@ pub(super) fn normalize_frequencies(raw_frequencies: &RawFrequencies) -> Frequen
     if normalized_sum < SCALING_FACTOR {
         normalized_frequencies[max_index] += SCALING_FACTOR - normalized_sum;
     } else if normalized_sum > SCALING_FACTOR {
-        normalized_frequencies[max_index] -= normalized_sum - SCALING_FACTOR;
+        // Take the excess from the most frequent symbol first and, if that is not enough, from
+        // the other symbols, never lowering the frequency of a symbol that occurs below 1.
+        let mut excess = normalized_sum - SCALING_FACTOR;
+
+        for i in iter::once(max_index).chain(0..ALPHABET_SIZE) {
+            let g = &mut normalized_frequencies[i];
+            let n = excess.min(g.saturating_sub(1));
+            *g -= n;
+            excess -= n;
+        }
     }
 
     normalized_frequencies
